@@ -1290,3 +1290,27 @@ def reconcile_render(ctx, cases, impl_out, model_out, pid):
             "(same reading by the backend grammar); these are not counted as correspondence disagreements" % pid
         )
     return impl2, failures
+
+
+# --------------------------------------------------------------------------- the theorem's fragment
+def frag_num(rng, d):
+    """numeric tree of the Lean fragment NumU over the integer columns"""
+    if d <= 0 or rng.random() < 0.2:
+        return ["col", rng.choice(["ia", "ib", "ic"])] if rng.random() < 0.7 else ["li", rng.choice(INT_LITS)]
+    k = rng.choice(["add", "sub", "mul", "mod", "neg", "add", "mul"])
+    if k == "neg":
+        return ["neg", frag_num(rng, d - 1)]
+    return [k, frag_num(rng, d - 1), frag_num(rng, d - 1)]
+
+
+def frag_bool(rng, d):
+    """boolean tree of the Lean fragment BoolU (without is_/is_not between general operands)"""
+    if d <= 0 or rng.random() < 0.25:
+        x = rng.random()
+        if x < 0.2:
+            return [rng.choice(["eq", "ne", "is", "isnot"]), frag_num(rng, 1), ["null"]]
+        return [rng.choice(CMP), frag_num(rng, rng.randint(0, 2)), frag_num(rng, rng.randint(0, 2))]
+    k = rng.choice(["and", "or", "not", "and", "or"])
+    if k == "not":
+        return ["not", frag_bool(rng, d - 1)]
+    return [k, [frag_bool(rng, d - 1) for _ in range(rng.choice([1, 2, 2, 3]))]]
